@@ -289,9 +289,23 @@ def _visible_after_filter(ctx, rep):
         n += 1
         ok = max(filters) < min(marks)
         first = ev[min(marks)]
+        # ... and what is marked are the members that are left: a local bound to the collections *before* they were filtered
+        # (`members = chain(self.boundprocs, self.variables)` ... filter ... `for obj in members`) still holds the old lists
+        if ok:
+            for i in marks:
+                e = ev[i]
+                loop = e.loops[-1] if e.loops else None
+                it = loop.iter if isinstance(loop, ast.For) else None
+                names = [x.id for x in ast.walk(it) if isinstance(x, ast.Name)] if it is not None else []
+                for nm in names:
+                    bound = [k for k, a in enumerate(ev) if a.kind == "assign" and a.target == nm and a.value is not None
+                             and any(isinstance(y, ast.Attribute) and ast.unparse(y.value) == "self" for y in ast.walk(a.value))]
+                    if bound and max(bound) < max(filters):
+                        ok = False
+                        first = ev[max(bound)]
         rep.ob(f"{cname}.prune: members are marked visible after the display filter", ok,
-               "filter first, then mark" if ok else
-               f"`{ast.unparse(first.node)[:40]}` runs before the last `filter_display(...)` of prune(): members that `display` "
+               "filter first, then mark what is left" if ok else
+               f"`{ast.unparse(first.node)[:50]}` runs before the last `filter_display(...)` of prune(): members that `display` "
                f"removes stay visible, so pages that still mention them link to a page that is never written", py.nloc(first.node))
     if n < 1:
         raise AnalysisError("no prune() that both filters and marks members visible found")
@@ -753,6 +767,12 @@ def r9_visible_only_through_the_filter(ctx, rep):
         raise AnalysisError(f"only {n} statements marking members visible found")
 
 
+def r10_scope_default_reaches_every_entity(ctx, rep):
+    """every entity is constructed with its scope's default accessibility (shared with C04.R1)"""
+    from . import c04
+    c04.r1_plumbing(ctx, rep)
+
+
 RULES = [
     RuleSpec("C05.R5", r5_graph_links_and_constructor, "graph links are visibility-gated; constructors follow their type", floor=1),
     RuleSpec("C05.R1", r1_prune_coverage, "prune covers every rendered child collection", floor=20),
@@ -763,4 +783,5 @@ RULES = [
     RuleSpec("C05.R7", r7_python_link_producers, "links built in Python are produced only for visible entities", floor=2),
     RuleSpec("C05.R8", r8_display_lists_accumulate, "repeated `display:` lines accumulate (shared with C15.R13)", floor=2),
     RuleSpec("C05.R9", r9_visible_only_through_the_filter, "members become visible only through the display filter", floor=3),
+    RuleSpec("C05.R10", r10_scope_default_reaches_every_entity, "every entity is constructed with its scope's default accessibility (shared with C04.R1)", floor=1),
 ]
